@@ -90,3 +90,24 @@ Definition outcome_scaled (tr : list (Q * Q)) (a b : res outcome) : Prop :=
   | _, _ => False
   end.
 
+
+(* ---------------------------------------------------------------------------------------------------------------- *)
+(* the convention behind DepState.required_increment_from, one nesting level: the translator's static iteration value
+   (0 = first pass, len-1 = loop pass) of the previous and of the new write versus the loop indices (counted from 0)
+   at which the two writes are executed *)
+Definition level_ok (old new iold inew : Z) : Prop :=
+  (old = new /\ inew = iold) \/                       (* same pass of this loop, same iteration *)
+  (old = 0%Z /\ (old < new)%Z /\ inew = (iold + 1)%Z) \/   (* the next iteration of this loop *)
+  (new = 0%Z /\ (new < old)%Z /\ inew = 0%Z /\ iold = old).    (* a new sweep after a complete one *)
+
+Inductive levels_ok : list Z -> list Z -> list Z -> list Z -> Prop :=
+| levels_nil : levels_ok [] [] [] []
+| levels_cons o n io i_n os ns ios ins :
+    level_ok o n io i_n -> levels_ok os ns ios ins -> levels_ok (o :: os) (n :: ns) (io :: ios) (i_n :: ins).
+
+(* value of an affine form with per-loop factors at loop indices counted from 0 *)
+Fixpoint aff_at (base : Q) (factors : list Q) (idx : list Z) : Q :=
+  match factors, idx with
+  | f :: fs, i :: is_ => aff_at (base + f * inject_Z i) fs is_
+  | _, _ => base
+  end.
